@@ -93,6 +93,10 @@ def mk_outcomes(con, with_site_nesting, neighbour):
                     return Message(code=Code.BAD_REQUEST, payload=b"handler says no")
                 if k == 12:
                     raise IndexError(SECRET + "-5")
+                if k == 13:
+                    # not a RenderableError although it has a to_message(): what response_raising raises for an
+                    # unsuccessful upstream response; letting it propagate must not forward the upstream's answer
+                    raise error.ResponseWrappingError(Message(code=Code.NOT_FOUND, payload=(SECRET + "-6").encode()))
             render_get = _go
             render_post = _go
             render_put = _go
@@ -117,8 +121,8 @@ def mk_outcomes(con, with_site_nesting, neighbour):
             return Code.INTERNAL_SERVER_ERROR, b""
 
         def h(kind: int, ei: int, mi: int, slow: bool, path_ok: bool, nr: int) -> None:
-            assert 0 <= kind <= 12 and 0 <= ei < NERR and 0 <= mi < len(METHODS) and 0 <= nr <= 2
-            k = pick(list(range(13)), kind)
+            assert 0 <= kind <= 13 and 0 <= ei < NERR and 0 <= mi < len(METHODS) and 0 <= nr <= 2
+            k = pick(list(range(14)), kind)
             if k not in (2, 3) and ei != 0:
                 return
             errclass = pick(ERRS, ei)
@@ -202,6 +206,68 @@ def mk_outcomes(con, with_site_nesting, neighbour):
     return make
 
 
+def mk_concurrent_slow(n):
+    """n confirmable requests from one endpoint whose handlers all finish after the empty ACK: their separate confirmable
+    responses queue behind each other (NSTART) and every one of them has to arrive"""
+    def make(reach):
+        import asyncio
+        from vf import stack
+        from vf.simloop import SimLoop
+        from aiocoap.message import Message
+        from aiocoap import resource, error
+        from aiocoap.numbers.types import CON, NON, ACK
+        from aiocoap.numbers.codes import Code, EMPTY
+        stack.configure(max_retransmit=1)
+
+        class H(resource.Resource):
+            def __init__(self, kind, delay):
+                super().__init__()
+                self.kind, self.delay, self.calls = kind, delay, 0
+
+            async def render_get(self, request):
+                self.calls += 1
+                await asyncio.sleep(self.delay)
+                if self.kind == 1:
+                    raise error.BadRequest("diag")
+                if self.kind == 2:
+                    raise ValueError(SECRET)
+                return Message(payload=b"ok")
+
+        EXP = [Code.CONTENT, Code.BAD_REQUEST, Code.INTERNAL_SERVER_ERROR]
+        ORDERS = [(300, 310, 320, 330), (330, 320, 310, 300), (300, 300, 300, 300), (310, 300, 330, 320)]
+
+        def h(k1: int, k2: int, k3: int, k4: int, oi: int, ack_late: bool) -> None:
+            assert all(0 <= k <= 2 for k in (k1, k2, k3, k4)) and 0 <= oi < len(ORDERS) and (n == 4 or k4 == 0)
+            kinds = [pick([0, 1, 2], k) for k in (k1, k2, k3, k4)][:n]
+            delays = pick(ORDERS, oi)
+            with SimLoop() as loop:
+                site = resource.Site()
+                hs = []
+                for i in range(n):
+                    hs.append(H(kinds[i], delays[i]))
+                    site.add_resource(["h%d" % i], hs[i])
+                S = stack.StackS(loop, site)
+                for i in range(n):
+                    S.deliver(Message(code=1, _mtype=CON, _mid=70 + i, _token=bytes([0x20 + i]), uri_path=["h%d" % i]).encode(), stack.R0)
+                loop.advance(400 if ack_late else 305)
+                for _ in range(2 * n + 2):
+                    for key in list(S.mman._active_exchanges):
+                        S.deliver(Message(code=EMPTY, _mtype=ACK, _mid=key[1]).encode(), key[0].sockaddr)
+                    loop.advance(20)
+                loop.drain()
+                out = [Message.decode(d) for (d, a, t) in S.out_raw()]
+                for i in range(n):
+                    fin = [o for o in out if int(o.code) != 0 and o.token == bytes([0x20 + i])]
+                    assert len({(o.mid) for o in fin}) == 1, "exactly one final response per request (retransmissions aside)"
+                    assert fin[0].code == pick(EXP, kinds[i]) and hs[i].calls == 1
+                    assert len([o for o in out if o.mtype == ACK and o.mid == 70 + i and int(o.code) == 0]) == 1
+                assert not any(SECRET.encode() in d for (d, a, t) in S.out_raw())
+                assert loop.exceptions == []
+            assert not reach, "reach"
+        return h
+    return make
+
+
 def mk_nosite(reach):
     from vf import stack
     from vf.simloop import SimLoop
@@ -235,11 +301,16 @@ def obligations(tier):
                 continue
             obs.append(Obligation("outcomes-%s-%s-nb%d" % ("con" if con else "non", "nested" if nest else "flat", nb), mk_outcomes(con, nest, nb),
                                   280 if q else 1500, functions=FUNCS,
-                                  symbolic={"handler outcome": "index/13", "renderable error class": "index over all ConstructionRenderableError subclasses",
+                                  symbolic={"handler outcome": "index/14", "renderable error class": "index over all ConstructionRenderableError subclasses",
                                             "method": "index over %s" % METHODS, "slow (after empty ACK)": "bool", "path known": "bool", "No-Response": "absent / 2 / 16"},
                                   concrete={"type": "CON" if con else "NON", "resource behind nested site": nest,
                                             "concurrent neighbour": ["none", "succeeding", "failing"][nb]},
                                   stubs=["SimLoop", "FakeDatagramTransport", "integer tuning", "random stubs"]))
+    for n in ((3,) if q else (3, 4)):
+        obs.append(Obligation("concurrent-slow-same-peer-n%d" % n, mk_concurrent_slow(n), 280 if q else 1500, functions=FUNCS + ["MessageManager._continue_backlog"],
+                              symbolic={"handler outcomes": "%d indices over success / renderable error / crash" % n, "completion order": "index/4",
+                                        "peer acknowledges after all handlers finished": "bool"},
+                              concrete={"requests": "%d CON requests from one endpoint, all completing after the empty ACK" % n}))
     obs.append(Obligation("no-site", mk_nosite, 200, functions=["protocol.Context._render_to_pipe"],
                           symbolic={"method": "index", "CON": "bool", "path length": "0..2"}))
     return obs
